@@ -96,6 +96,7 @@ def generate(rng, tier="quick"):
             op["default"] = rng.choice([None, None, "draft3", "draft4", "new"])
         if k in ("validate", "cli", "validate_cls", "suspend"):
             op["spelling"] = rng.choice(["known", "known", "known", "unknown", "future", "missing"])
+            op["extra"] = rng.choice([None, None, "format_checker", "bool_schema"])
         if k == "cli":
             op["validator"] = rng.choice([None, None, "Draft3Validator", "jsonschema.Draft4Validator", "Draft6Validator"])
             op["pretty"] = rng.random() < 0.2
@@ -151,7 +152,7 @@ def execute(scn):
         dep = [x for x in w if issubclass(x.category, DeprecationWarning)]
         return cls, len(dep)
 
-    def errors_of(cls, schema, instance):
+    def errors_of(cls, schema, instance, **kw):
         """canonical verdict of a class on (schema, instance): list of errors, or raised class name"""
         try:
             cls.check_schema(schema)
@@ -160,7 +161,8 @@ def execute(scn):
         except Exception as x:
             return {"raised": type(x).__name__}
         try:
-            return {"errors": [canon_error(e) for e in cls(copy.deepcopy(schema)).iter_errors(copy.deepcopy(instance))]}
+            return {"errors": [canon_error(e) for e in
+                               cls(copy.deepcopy(schema), **kw).iter_errors(copy.deepcopy(instance))]}
         except Exception as x:
             return {"raised": type(x).__name__}
 
@@ -316,23 +318,37 @@ def execute(scn):
                     if val is not None:
                         schema["$schema"] = val
                 want, want_warn = model_select(schema, default)
+                if op["v"] == 3 and isinstance(schema, dict):
+                    import types as _types
+                    schema = _types.MappingProxyType(schema)     # "collections.abc.Mapping or bool", says the docstring
+                    probe("validator_for_on_non_dict_mapping")
                 got, warned = observed_select(schema, default)
                 note_dispatch(u, step)
                 if want_warn:
                     probe("unknown_uri_warned")
                 if got is not want:
                     violations.append({"oracle": "validator_for-selected-wrong-class", "where": step, "op": k,
-                                       "detail": {"schema": schema, "default": op.get("default"),
+                                       "detail": {"schema": dict(schema), "mapping_type": type(schema).__name__,
+                                                  "default": op.get("default"),
                                                   "got": notes.get(id(got), repr(got)), "want": notes.get(id(want))}})
                 elif bool(warned) != want_warn:
                     violations.append({"oracle": "validator_for-warning-mismatch", "where": step, "op": k,
-                                       "detail": {"schema": schema, "warnings": warned, "want_warning": want_warn}})
+                                       "detail": {"schema": dict(schema) if not isinstance(schema, bool) else schema,
+                                                  "warnings": warned, "want_warning": want_warn}})
             elif k in ("validate", "validate_cls", "cli", "suspend"):
                 body, instance = BATTERY[op["b"]]
                 schema = copy.deepcopy(body)
                 val, u = spelled(op, step)
                 if val is not None:
                     schema["$schema"] = val
+                extra_kwargs = {}
+                if op.get("extra") == "format_checker" and k in ("validate", "validate_cls"):
+                    schema["properties"] = dict(schema.get("properties", {}), f={"format": "ipv4"})
+                    if isinstance(instance, dict):
+                        instance = dict(instance, f="not an ip")
+                    extra_kwargs = {"format_checker": jsonschema.FormatChecker()}
+                elif op.get("extra") == "bool_schema" and k in ("validate", "validate_cls", "cli"):
+                    schema, u = bool(op["v"] % 2), None
                 want, _ = model_select(schema)
                 if u is not None and born[u] >= 0:
                     base_cls = drafts[scn["ops"][born[u]]["base"]]
@@ -352,15 +368,16 @@ def execute(scn):
                     if k == "validate_cls":
                         explicit = drafts[op["base"]] if op["v"] % 2 or not new_ids else model[new_ids[op["a"] % len(new_ids)]]
                         want = explicit
-                    exp = errors_of(want, schema, instance)
+                    exp = errors_of(want, schema, instance, **extra_kwargs)
                     got = None
                     try:
                         with warnings.catch_warnings():
                             warnings.simplefilter("ignore")
                             if explicit is None:
-                                jsonschema.validate(copy.deepcopy(instance), copy.deepcopy(schema))
+                                jsonschema.validate(copy.deepcopy(instance), copy.deepcopy(schema), **extra_kwargs)
                             else:
-                                jsonschema.validate(copy.deepcopy(instance), copy.deepcopy(schema), cls=explicit)
+                                jsonschema.validate(copy.deepcopy(instance), copy.deepcopy(schema), cls=explicit,
+                                                    **extra_kwargs)
                         got = {"ok": True}
                     except X.ValidationError as x:
                         got = {"error": jdump(dict(canon_error(x), context=[]))}
